@@ -171,3 +171,16 @@ def run(facts, rep, ctx):
     if ctx.get('flavor') != 'nochk':
         round2.po8(facts, rep)
 
+
+_run_before_round4b = run
+
+
+def run(facts, rep, ctx):
+    """further rules added after the third seeding round (rules/round4.py)"""
+    _run_before_round4b(facts, rep, ctx)
+    from . import round4
+    round4.ri5(facts, rep, ['stats::hmm::forward', 'stats::hmm::backward', 'stats::hmm::viterbi_matrices'])
+    # the fast exponential underneath ln_sum_exp: its cut-off constants are part of this check (rule TB-10 of C15)
+    from .c15 import tb10
+    tb10(facts, rep)
+
